@@ -53,7 +53,8 @@ func check(c *Ctx, r *Report) error {
 		"int/uint are unbounded integers (no 64-bit wrap-around; uint(i) of a negative i does not occur)",
 		"an index out of range (a Go panic) is not modelled: a read yields the zero value, a write does nothing",
 		"receiver methods declared opaque (dcache3.evaluate, dcache2.evaluate) are pure functions of their arguments",
-		"prefix targets (marchingCubes, marchingSquares, MarchingCubesUniform.Render, dcache.evaluate) tie only the statements before the named call",
+		"prefix targets (marchingCubes, MarchingCubesUniform.Render, dcache3/dcache2.evaluate) tie only the statements before the named call",
+		"trace targets (dcache3.processCube, dcache2.processSquare): the translation is the list of events (recursive calls, outputs) of one activation in program order; that the Go runtime performs them in that order, and that output.Write only appends, is not part of the tie",
 		"package-level tables are never assigned (checked syntactically over the package) and a pointer &t stands for the value of t at that point (t is not assigned afterwards: checked)",
 	}
 	if nt != len(targets) {
